@@ -26,8 +26,10 @@
    the token "tk<j>": "PING :tk<j>" is answered "PONG :tk<j>", a CTCP PING "... :\001PING tk<j>\001"
    by "NOTICE <nick> :\001PING tk<j>\001".  C02's claim on a transcript ([C02_transcript_ok]):
    no "X", one record per marker, and every token seen in the output of a marker interval belongs
-   to an item of THAT interval, in increasing order; every item that is exactly "PING :tk<j>" is
-   answered in its interval. *)
+   to an item of THAT interval, in non-decreasing order; every item that is exactly a tagged probe
+   ("PING :tk<j>", CTCP VERSION from pr<j>, 433 for q<j>x) is answered in its interval, and an
+   interval with n well-formed ":probe.example CAP * LS|ACK :..." lines shows >= n CAP REQ / CAP END /
+   AUTHENTICATE lines ("after a hostile line of verb V a well-formed V is still handled"). *)
 From Verif Require Export Client NetObs.
 From Verif Require GoBytes LineLib Line Split Commands NickHandlers NewNick Caps.
 Open Scope Z_scope.
@@ -181,48 +183,102 @@ Definition pre_pong_tk : bytes := Commands.s_PONG ++ Commands.s_sp_colon ++ s_tk
 Definition pre_ping_tk : bytes := Commands.s_PING ++ Commands.s_sp_colon ++ s_tk.       (* "PING :tk" *)
 Definition mid_ctcp_ping : bytes := Commands.s_sp_colon ++ [1%N] ++ Commands.s_PING ++ Commands.s_sp ++ s_tk.
 
+(* further probes (well-formed lines the generator places AFTER hostile ones of the same verb):
+     ":pr<j>!u@h PRIVMSG <t> :\001VERSION\001"            -> "NOTICE pr<j> :\001VERSION ..."
+     ":irc.example 433 * q<j>x :..."                       -> "NICK q<j>..."
+     ":probe.example CAP * LS :a b" / "... CAP * ACK :a"   -> a "CAP REQ :" / "CAP END" / "AUTHENTICATE " line *)
+Definition a_ (l : list N) : bytes := l.
+Definition pre_notice_pr : bytes := Commands.s_NOTICE ++ Commands.s_sp ++ a_ [112;114]%N.            (* "NOTICE pr" *)
+Definition mid_version : bytes := Commands.s_sp_colon ++ [1%N] ++ Commands.s_VERSION.               (* " :\001VERSION" *)
+Definition pre_nick_q : bytes := Commands.s_NICK ++ Commands.s_sp ++ a_ [113]%N.                    (* "NICK q" *)
+Definition pre_in_pr : bytes := a_ [58;112;114]%N.                                                  (* ":pr" *)
+Definition mid_in_pr : bytes := a_ [33;117;64;104;32]%N ++ Commands.s_PRIVMSG ++ Commands.s_sp.       (* "!u@h PRIVMSG " *)
+Definition suf_in_version : bytes := mid_version ++ [1%N].                                          (* " :\001VERSION\001" *)
+Definition pre_in_433 : bytes :=
+  a_ [58;105;114;99;46;101;120;97;109;112;108;101;32;52;51;51;32;42;32;113]%N.                      (* ":irc.example 433 * q" *)
+Definition mid_in_433 : bytes := a_ [120;32;58]%N.                                                  (* "x :" *)
+Definition pre_in_cap : bytes :=
+  a_ [58;112;114;111;98;101;46;101;120;97;109;112;108;101;32]%N ++ Commands.s_CAP ++ a_ [32;42;32]%N. (* ":probe.example CAP * " *)
+Definition is_digit (c : N) : bool := (48 <=? c)%N && (c <=? 57)%N.
+Fixpoint lead_digits (s : bytes) : bytes * bytes :=
+  match s with
+  | c :: r => if is_digit c then let x := lead_digits r in (c :: fst x, snd x) else ([], s)
+  | [] => ([], [])
+  end.
+Definition num_then (s : bytes) (p : bytes -> bool) : option nat :=
+  let x := lead_digits s in
+  match fst x with [] => None | d => if p (snd x) then nat_of d else None end.
+
 (* the probe token an output line carries *)
 Definition out_tag (l : bytes) : option nat :=
   match Commands.strip_prefix l pre_pong_tk with
   | Some d => nat_of d
   | None =>
-      if GoBytes.has_prefix l (Commands.s_NOTICE ++ Commands.s_sp) then
-        match GoBytes.split2 l mid_ctcp_ping with
-        | [_; rest] => match Commands.strip_suffix rest [1%N] with Some d => nat_of d | None => None end
-        | _ => None
-        end
-      else None
+      match Commands.strip_prefix l pre_notice_pr with
+      | Some r => num_then r (fun t => GoBytes.has_prefix t mid_version)
+      | None =>
+          match Commands.strip_prefix l pre_nick_q with
+          | Some r => num_then r (fun _ => true)
+          | None =>
+              if GoBytes.has_prefix l (Commands.s_NOTICE ++ Commands.s_sp) then
+                match GoBytes.split2 l mid_ctcp_ping with
+                | [_; rest] => match Commands.strip_suffix rest [1%N] with Some d => nat_of d | None => None end
+                | _ => None
+                end
+              else None
+          end
+      end
   end.
 
-(* an input line that is exactly "PING :tk<j>" *)
+(* an input line that is exactly one of the tagged probes: its index *)
 Definition in_ping_tag (raw : bytes) : option nat :=
-  match Commands.strip_prefix raw pre_ping_tk with Some d => nat_of d | None => None end.
+  match Commands.strip_prefix raw pre_ping_tk with
+  | Some d => nat_of d
+  | None =>
+      match Commands.strip_prefix raw pre_in_pr with
+      | Some r => num_then r (fun t => GoBytes.has_prefix t mid_in_pr && GoBytes.has_suffix t suf_in_version)
+      | None =>
+          match Commands.strip_prefix raw pre_in_433 with
+          | Some r => num_then r (fun t => GoBytes.has_prefix t mid_in_433)
+          | None => None
+          end
+      end
+  end.
+(* a well-formed CAP LS / ACK probe, and the lines that count as its being handled *)
+Definition in_cap_probe (raw : bytes) : bool :=
+  GoBytes.has_prefix raw (pre_in_cap ++ Caps.s_LS ++ Commands.s_sp_colon)
+  || GoBytes.has_prefix raw (pre_in_cap ++ Caps.s_ACK ++ Commands.s_sp_colon).
+Definition is_cap_reply (l : bytes) : bool :=
+  GoBytes.has_prefix l Caps.line_cap_end || GoBytes.has_prefix l Caps.pre_cap_req || GoBytes.has_prefix l Caps.pre_auth.
 
-(* tags of a group are strictly increasing item indices j with lo <= j < hi *)
+(* tags of a group are non-decreasing item indices j with lo <= j < hi (a reply split over
+   several lines repeats its tag) *)
 Fixpoint tags_ok (lo hi : nat) (tags : list nat) : bool :=
   match tags with
   | [] => true
-  | j :: r => Nat.leb lo j && Nat.ltb j hi && tags_ok (S j) hi r
+  | j :: r => Nat.leb lo j && Nat.ltb j hi && tags_ok j hi r
   end.
 
 (* [idx] = index of the current item; [lo] = 1 + index of the previous marker (0 at the start);
-   [need] = probe PINGs of the current interval that must be answered in it *)
-Fixpoint judge_t (its : list titem) (idx lo : nat) (need : list nat) (o : list bytes) : option (list bytes) :=
+   [need] = tagged probes of the current interval that must be answered in it; [ncap] = CAP
+   probes of the interval: at least that many CAP REQ / CAP END / AUTHENTICATE lines in it *)
+Fixpoint judge_t (its : list titem) (idx lo : nat) (need : list nat) (ncap : nat) (o : list bytes) : option (list bytes) :=
   match its with
-  | [] => match need with [] => Some o | _ => None end
+  | [] => match need, ncap with [], O => Some o | _, _ => None end
   | TLine raw :: r =>
       let need' := match in_ping_tag raw with
                    | Some j => if Nat.eqb j idx then need ++ [j] else need
                    | None => need
                    end in
-      judge_t r (S idx) lo need' o
+      judge_t r (S idx) lo need' (if in_cap_probe raw then S ncap else ncap) o
   | TMark :: r =>
       match next_rec o with
       | Some (tag, ls, o') =>
           let tags := omap out_tag ls in
           if bool_decide (tag = t_Q) && tags_ok lo idx tags
              && forallb (fun j => existsb (Nat.eqb j) tags) need
-          then judge_t r (S idx) (S idx) [] o'
+             && Nat.leb ncap (length (filter (fun l => is_cap_reply l = true) ls))
+          then judge_t r (S idx) (S idx) [] O o'
           else None
       | None => None
       end
@@ -233,7 +289,7 @@ Definition C02_transcript_ok (its : list titem) (o : list bytes) : bool :=
   | Some (tr, rl, o1) =>
       bool_decide (tr = t_R)
       && match omap out_tag rl with [] => true | _ => false end
-      && match judge_t its 0 0 [] o1 with
+      && match judge_t its 0 0 [] O o1 with
          | Some o2 =>
              match next_rec o2 with
              | Some (te, _, o3) =>
